@@ -1,0 +1,49 @@
+//go:build verif
+
+package query
+
+import (
+	"encoding/hex"
+	"strconv"
+)
+
+// Verification hooks for property C26 (binary codecs); not part of the normal build.
+
+// VerifBranchesReposEncode is branchesReposEncode.
+func VerifBranchesReposEncode(brs []BranchRepos) ([]byte, error) { return branchesReposEncode(brs) }
+
+// VerifBranchesReposDecode is branchesReposDecode.
+func VerifBranchesReposDecode(b []byte) ([]BranchRepos, error) { return branchesReposDecode(b) }
+
+// VerifStringSetEncode is stringSetEncode.
+func VerifStringSetEncode(set map[string]struct{}) ([]byte, error) { return stringSetEncode(set) }
+
+// VerifStringSetDecode is stringSetDecode.
+func VerifStringSetDecode(b []byte) (map[string]struct{}, error) { return stringSetDecode(b) }
+
+// VerifBinaryReaderOps runs a sequence of binaryReader primitives over b ('u' = uvarint, 's' = str, 'b' = byt,
+// 'm' = bitmap) and reports each result, the unread remainder and whether the reader's error is set.
+// A bitmap result is reported as "m", or "mnil" when the reader returned no bitmap.
+func VerifBinaryReaderOps(b []byte, ops string) (results []string, rest []byte, failed bool) {
+	r := binaryReader{b: append([]byte(nil), b...)}
+	for _, op := range ops {
+		switch op {
+		case 'u':
+			results = append(results, "u"+strconv.Itoa(r.uvarint()))
+		case 's':
+			results = append(results, "s"+hex.EncodeToString([]byte(r.str())))
+		case 'b':
+			results = append(results, "b"+strconv.Itoa(int(r.byt())))
+		case 'm':
+			bm := r.bitmap()
+			if bm == nil {
+				results = append(results, "mnil")
+			} else {
+				results = append(results, "m")
+			}
+		default:
+			panic("VerifBinaryReaderOps: unknown op")
+		}
+	}
+	return results, append([]byte(nil), r.b...), r.err != nil
+}
